@@ -124,6 +124,7 @@ func stepTick(c cfg, s st, pick, dur int) (st, int) {
 
 type pspec struct {
 	idx, dur int
+	refused  bool  // duration field `r`: publishBlock returns at once without producing (pending limit); dur = 0
 	offs     []int // NotifyNewTransactions() this many ms after the production's start
 	probes   []int // pure time markers this many ms after the production's start
 }
@@ -153,6 +154,12 @@ func (sc *script) durOf(k int) int {
 		return p.dur
 	}
 	return sc.dd
+}
+func (sc *script) refusedOf(k int) bool {
+	if p := sc.spec(k); p != nil {
+		return p.refused
+	}
+	return false
 }
 func (sc *script) offsOf(k int) []int {
 	if p := sc.spec(k); p != nil {
@@ -212,10 +219,13 @@ func parseScript(s string) ([]pspec, bool) {
 		}
 		k, ok1 := parseNat(f[0])
 		d, ok2 := parseNat(f[1])
+		if f[1] == "r" {
+			d, ok2 = 0, true
+		}
 		if !ok1 || !ok2 {
 			return nil, false
 		}
-		p := pspec{idx: k, dur: d, offs: parseOffs(f[2])}
+		p := pspec{idx: k, dur: d, refused: f[1] == "r", offs: parseOffs(f[2])}
 		if len(f) == 4 {
 			p.probes = parseOffs(f[3])
 		}
@@ -241,7 +251,11 @@ func showScript(ps []pspec) string {
 	}
 	var items []string
 	for _, p := range ps {
-		items = append(items, fmt.Sprintf("%d:%d:%s:%s", p.idx, p.dur, showOffs(p.offs), showOffs(p.probes)))
+		d := strconv.Itoa(p.dur)
+		if p.refused {
+			d = "r"
+		}
+		items = append(items, fmt.Sprintf("%d:%s:%s:%s", p.idx, d, showOffs(p.offs), showOffs(p.probes)))
 	}
 	return strings.Join(items, ",")
 }
